@@ -304,7 +304,9 @@ impl Factors {
                     factors,
                     "Recursos ahorrados a la red por la energía producida in situ y exportada a usos no EPB",
                 );
-            } else {
+            } else if wf_carriers.contains(c) {
+                // Los vectores que no aparecen en los factores (p.e. un archivo de factores
+                // simplificado para un edificio sin electricidad) no necesitan factores de exportación
                 return Err(EpbdError::MissingFactor(format!("{}, SUMINISTRO, A", c)));
             }
         }
